@@ -48,3 +48,38 @@ Print Assumptions C15_one_function.
 Theorem C15_count_and_order : forall (l : list (string * json)), NoDup (map fst l) -> build l = l.
 Proof. exact (@build_nodup json). Qed.
 Print Assumptions C15_count_and_order.
+
+(* ---------- other namespaces, whole line ---------- *)
+From Model Require Import JsonText.
+From Proofs Require Import ForeignNs.
+
+(* a line none of whose attr documents has a namespace starting with a configured value is emitted,
+   byte for byte, as by a run without --redactFieldNames (the configuration with the empty list) *)
+Theorem C15_other_namespace_line : forall tb cs c enc l,
+  (forall entry a, parse_line l = Some (JObj entry) -> In ("attr", JObj a) entry ->
+     Forall (fun p => String.prefix p (str_of (oget a "ns")) = false) (eager c)) ->
+  redact_line tb cs c enc l = redact_line tb cs (set_eager c []) enc l.
+Proof.
+  intros tb cs c enc l H. apply foreign_line. intros entry Hp a Hin.
+  apply C15_no_prefix_no_mode. now apply (H entry a).
+Qed.
+Print Assumptions C15_other_namespace_line.
+
+(* the same for the tree, for any action set *)
+Theorem C15_other_namespace_tree : forall tb cs c A t,
+  (forall entry, t = JObj entry -> foreign_entry c entry) ->
+  redact_tree tb cs c A t = redact_tree tb cs (set_eager c []) A t.
+Proof. exact foreign_tree. Qed.
+Print Assumptions C15_other_namespace_tree.
+
+(* the premise is met by an ordinary line: namespace shop_archive.orders, configured value "shop." *)
+Example C15_other_namespace_example :
+  let l := list_ascii_of_string "{""c"":""COMMAND"",""attr"":{""ns"":""shop_archive.orders"",""command"":{""find"":""orders"",""filter"":{""owner"":""x""}}}}" in
+  let c := {| repl := "REDACTED"; nums := false; bools := false; ips := false; nss := false; eager := ["shop."]; re := None |} in
+  match parse_line l with
+  | Some (JObj entry) => forallb (fun kv => match kv with
+                           | (k, JObj a) => negb (String.eqb k "attr") || forallb (fun p => negb (String.prefix p (str_of (oget a "ns")))) (eager c)
+                           | _ => true end) entry = true
+  | _ => False
+  end.
+Proof. vm_compute. reflexivity. Qed.
